@@ -32,7 +32,7 @@ func fixedGraphs() map[string]*model.Graph {
 			{ID: "e2", Edge: true, Label: "y", From: "v1", To: "v2", Data: d("k", "a", "n", 3.0)},
 			{ID: "e3", Edge: true, Label: "y", From: "v2", To: "v2", Data: d("k", 2.0)},     // self loop
 			{ID: "e4", Edge: true, Label: "z", From: "v2", To: "ghost1", Data: d("k", 1.0)}, // dangling target
-			{ID: "e5", Edge: true, Label: "x", From: "ghost2", To: "v4", Data: d()},          // dangling source
+			{ID: "e5", Edge: true, Label: "x", From: "ghost2", To: "v4", Data: d()},         // dangling source
 			{ID: "e6", Edge: true, Label: "z", From: "v4", To: "v0", Data: d("n", 0.0, "l", li(li(1.0), "a"))},
 		},
 	}
